@@ -282,10 +282,11 @@ pub fn check(sh: &mut Shard, class: &str, l: &Ladder, static_check: bool) {
             let mut d = describe(&text, &model, &imp);
             d["family"] = json!(l.family);
             d["m"] = json!(l.m);
+            d["ladder"] = json!({"family": l.family, "m": l.m});
             if text.len() > 600 {
                 // the replay file keeps the recipe, not 400 KB of text
-                d["program"] = json!(format!("{} … ({} characters; regenerate with family and m)", &text[..300], text.len()));
-                d["ladder"] = json!({"family": l.family, "m": l.m});
+                let cut = (0..=300).rev().find(|i| text.is_char_boundary(*i)).unwrap_or(0);
+                d["program"] = json!(format!("{} … ({} characters; regenerate with family and m)", &text[..cut], text.len()));
             }
             sh.violation(class, d, why);
         }
